@@ -88,3 +88,88 @@ def run_parallel(exe, behaviours, nproc=6, timeout=900, env=None):
     for p in parts:
         out += p
     return out
+
+
+# ---------------------------------------------------------------------------
+# content-addressed object cache + archives (whole directories through the seam)
+# ---------------------------------------------------------------------------
+import glob
+import hashlib
+
+
+def _headers_digest():
+    h = hashlib.sha1()
+    for d in vlib.INCLUDES:
+        for f in sorted(glob.glob(os.path.join(vlib.REPO, d, "*.h")) + glob.glob(os.path.join(vlib.REPO, d, "*", "*.h"))):
+            h.update(f[len(vlib.REPO):].encode())
+            h.update(open(f, "rb").read())
+    for f in sorted(glob.glob(os.path.join(vlib.DRV, "*.h"))):
+        h.update(open(f, "rb").read())
+    return h.hexdigest()
+
+
+def cached_objects(files, defines=SEAM_DEFS, san=True, extra_flags=(), jobs=None):
+    """Compile C files (absolute paths, or relative to the repository) with the seam defines.
+    Objects are cached under _work/seamobj keyed by source content, headers and flags, so a changed
+    working tree recompiles exactly what changed.  Returns object paths in the order of `files`."""
+    from concurrent.futures import ThreadPoolExecutor
+    cdir = vlib.ensure(os.path.join(vlib.WORK, "seamobj"))
+    flags = ["clang"] + (vlib.SAN_FLAGS.split() if san else ["-O1", "-g", "-DMPT_VERIF"])
+    flags += ["-Wno-unused-function", "-Wno-deprecated", "-w", "-c"] + ["-D" + d for d in defines] + list(extra_flags)
+    hd = _headers_digest()
+    base = hashlib.sha1((" ".join(flags) + hd).encode()).hexdigest()
+    todo = []
+    objs = []
+    for f in files:
+        path = f if os.path.isabs(f) else os.path.join(vlib.REPO, f)
+        key = hashlib.sha1(base.encode() + os.path.basename(path).encode() + open(path, "rb").read()).hexdigest()
+        o = os.path.join(cdir, key[:2], key + ".o")
+        objs.append(o)
+        if not os.path.exists(o):
+            todo.append((path, o))
+
+    def cc(job):
+        path, o = job
+        vlib.ensure(os.path.dirname(o))
+        tmp = o + ".tmp%d" % os.getpid()
+        cmd = flags + ["-I" + vlib.DRV] + ["-I" + os.path.join(vlib.REPO, i) for i in vlib.INCLUDES]
+        cmd += ["-I" + os.path.dirname(path), path, "-o", tmp]
+        r = subprocess.run(cmd, stdout=subprocess.PIPE, stderr=subprocess.STDOUT, text=True)
+        if r.returncode:
+            return "seam compile failed (%s):\n%s" % (path, r.stdout[-3000:])
+        os.replace(tmp, o)
+        return None
+    if todo:
+        with ThreadPoolExecutor(max_workers=jobs or vlib.NCPU) as ex:
+            for err in ex.map(cc, todo):
+                if err:
+                    raise vlib.MachineryError(err)
+        vlib.log("seam: compiled %d of %d objects" % (len(todo), len(files)))
+    return objs
+
+
+def seam_archive(name, files, **kw):
+    """Static archive of the cached objects of `files` (for -Wl,--whole-archive or symbol pull-in)."""
+    objs = cached_objects(files, **kw)
+    key = hashlib.sha1("\n".join(objs).encode()).hexdigest()[:16]
+    adir = vlib.ensure(os.path.join(vlib.WORK, "seamobj", "ar"))
+    path = os.path.join(adir, "lib%s-%s.a" % (name, key))
+    if not os.path.exists(path):
+        tmp = path + ".tmp%d" % os.getpid()
+        if os.path.exists(tmp):
+            os.unlink(tmp)
+        r = subprocess.run(["ar", "rcs", tmp] + objs, stdout=subprocess.PIPE, stderr=subprocess.STDOUT, text=True)
+        if r.returncode:
+            raise vlib.MachineryError("ar failed: " + r.stdout[-2000:])
+        os.replace(tmp, path)
+    return path
+
+
+def repo_c_files(*dirs, exclude=()):
+    out = []
+    for d in dirs:
+        for f in sorted(glob.glob(os.path.join(vlib.REPO, d, "*.c")) + glob.glob(os.path.join(vlib.REPO, d, "*", "*.c"))):
+            rel = f[len(vlib.REPO) + 1:]
+            if rel not in exclude and os.path.basename(rel) not in exclude:
+                out.append(rel)
+    return out
